@@ -135,6 +135,10 @@ pub open spec fn valid_dups(s: Seq<Range<u64>>, lo: u64, hi: u64) -> bool {
     &&& forall|i: int| 0 <= i < s.len() ==> lo <= (#[trigger] s[i]).start < s[i].end <= hi
     &&& forall|i: int, j: int| 0 <= i < j < s.len() ==> (#[trigger] s[i]).end <= (#[trigger] s[j]).start
 }
+/// k lies in one of the ranges
+pub open spec fn in_dups(s: Seq<Range<u64>>, k: int) -> bool { exists|i: int| 0 <= i < s.len() && (#[trigger] s[i]).start <= k < s[i].end }
+/// k lies in one of the ranges from index `from` on
+pub open spec fn in_dups_from(s: Seq<Range<u64>>, from: int, k: int) -> bool { exists|i: int| from <= i < s.len() && (#[trigger] s[i]).start <= k < s[i].end }
 /// total length of the first n ranges
 pub open spec fn dup_total(s: Seq<Range<u64>>, n: int) -> int decreases n {
     if n <= 0 { 0 } else { dup_total(s, n - 1) + (s[n - 1].end - s[n - 1].start) }
@@ -157,6 +161,8 @@ impl RangeSet {
         requires r.start <= r.end
         ensures valid_dups(it.remaining(), r.start, r.end),
             final(self)@ == old(self)@.union(set_int_range(r.start as int, r.end as int)),
+            // what is yielded is exactly the part of the range that was already in the set
+            forall|k: int| r.start <= k < r.end ==> (old(self)@.contains(k) <==> #[trigger] in_dups_from(it.remaining(), 0, k)),
             final(self).total() == old(self).total() + (r.end - r.start) - dup_total(it.remaining(), it.remaining().len() as int),
             final(self).bound() == (if r.start < r.end && r.end > old(self).bound() { r.end as nat } else { old(self).bound() }),
     { unimplemented!() }
@@ -301,6 +307,24 @@ pub proof fn lemma_disjoint_push(s: Seq<Buffer>, x: Buffer)
         if j < s.len() { assert(t[j] == s[j]); } else { assert(t[j] == x); }
     }
 }
+pub proof fn lemma_covers_take_mono(s: Seq<Buffer>, i: int, k: int)
+    requires 0 <= i < s.len()
+    ensures seq_covers(s.take(i), k) || s[i].offset <= k < s[i].end() ==> seq_covers(s.take(i + 1), k)
+{
+    if seq_covers(s.take(i), k) {
+        let j = choose|j: int| 0 <= j < s.take(i).len() && (#[trigger] s.take(i)[j]).offset <= k < s.take(i)[j].end();
+        assert(s.take(i + 1)[j] == s.take(i)[j]);
+    } else if s[i].offset <= k < s[i].end() {
+        assert(s.take(i + 1)[i] == s[i]);
+    }
+}
+pub proof fn lemma_covers_push_rev(s: Seq<Buffer>, x: Buffer, k: int)
+    requires seq_covers(s.push(x), k)
+    ensures seq_covers(s, k) || x.offset <= k < x.end()
+{
+    let j = choose|j: int| 0 <= j < s.push(x).len() && (#[trigger] s.push(x)[j]).offset <= k < s.push(x)[j].end();
+    if j < s.len() { assert(s.push(x)[j] == s[j]); }
+}
 pub proof fn lemma_covers_take(s: Seq<Buffer>, i: int, k: int)
     requires 0 <= i < s.len(), seq_covers(s.take(i + 1), k)
     ensures seq_covers(s.take(i), k) || s[i].offset <= k < s[i].end()
@@ -364,6 +388,13 @@ pub open spec fn pairwise_disjoint(s: Seq<Buffer>) -> bool {
 pub open spec fn bufs_set(s: Seq<Buffer>, n: int) -> Set<int> decreases n {
     if n <= 0 { Set::empty() } else { bufs_set(s, n - 1).union(set_int_range(s[n - 1].offset as int, s[n - 1].end())) }
 }
+pub proof fn lemma_bufs_set_has(s: Seq<Buffer>, n: int, i: int, k: int)
+    requires 0 <= i < n <= s.len(), s[i].offset <= k < s[i].end()
+    ensures bufs_set(s, n).contains(k)
+    decreases n
+{
+    if i < n - 1 { lemma_bufs_set_has(s, n - 1, i, k); }
+}
 pub proof fn lemma_bufs_set_contains(s: Seq<Buffer>, n: int, k: int)
     requires 0 <= n <= s.len(), bufs_set(s, n).contains(k)
     ensures exists|j: int| 0 <= j < n && (#[trigger] s[j]).offset <= k < s[j].end()
@@ -372,6 +403,59 @@ pub proof fn lemma_bufs_set_contains(s: Seq<Buffer>, n: int, k: int)
     if n > 0 {
         if bufs_set(s, n - 1).contains(k) { lemma_bufs_set_contains(s, n - 1, k); }
         else { assert(s[n - 1].offset <= k < s[n - 1].end()); }
+    }
+}
+/// every offset held by a buffer of s is in r
+pub open spec fn bufs_in(s: Seq<Buffer>, r: Set<int>) -> bool {
+    forall|i: int, k: int| 0 <= i < s.len() && (#[trigger] s[i]).offset <= k < s[i].end() ==> #[trigger] r.contains(k)
+}
+/// no offset held by a buffer of s is in d
+pub open spec fn bufs_out(s: Seq<Buffer>, d: Set<int>) -> bool {
+    forall|i: int, k: int| 0 <= i < s.len() && (#[trigger] s[i]).offset <= k < s[i].end() ==> !(#[trigger] d.contains(k))
+}
+/// x holds a sub-range of what o holds
+pub open spec fn within(x: Buffer, o: Buffer) -> bool { x.offset >= o.offset && x.end() <= o.end() }
+pub proof fn lemma_unordered_remove(s: Seq<Buffer>, i: int, r: Set<int>, d: Set<int>)
+    requires 0 <= i < s.len(), pairwise_disjoint(s), bufs_in(s, r), bufs_out(s, d)
+    ensures pairwise_disjoint(s.remove(i)), bufs_in(s.remove(i), r),
+        bufs_out(s.remove(i), d.union(set_int_range(s[i].offset as int, s[i].end()))),
+{
+    let t = s.remove(i);
+    let d2 = d.union(set_int_range(s[i].offset as int, s[i].end()));
+    assert forall|a: int, b: int| 0 <= a < t.len() && 0 <= b < t.len() && a != b implies (#[trigger] t[a]).end() <= (#[trigger] t[b]).offset || t[b].end() <= t[a].offset by {
+        let a0 = if a < i { a } else { a + 1 };
+        let b0 = if b < i { b } else { b + 1 };
+        assert(t[a] == s[a0] && t[b] == s[b0]);
+    }
+    assert forall|a: int, k: int| 0 <= a < t.len() && (#[trigger] t[a]).offset <= k < t[a].end() implies #[trigger] r.contains(k) by {
+        let a0 = if a < i { a } else { a + 1 };
+        assert(t[a] == s[a0]);
+    }
+    assert forall|a: int, k: int| 0 <= a < t.len() && (#[trigger] t[a]).offset <= k < t[a].end() implies !(#[trigger] d2.contains(k)) by {
+        let a0 = if a < i { a } else { a + 1 };
+        assert(t[a] == s[a0]);
+        assert(s[a0].end() <= s[i].offset || s[i].end() <= s[a0].offset);
+        assert(!d.contains(k));
+    }
+}
+pub proof fn lemma_unordered_update(s: Seq<Buffer>, i: int, x: Buffer, r: Set<int>, d: Set<int>)
+    requires 0 <= i < s.len(), pairwise_disjoint(s), bufs_in(s, r), bufs_out(s, d), within(x, s[i]),
+    ensures pairwise_disjoint(s.update(i, x)), bufs_in(s.update(i, x), r),
+        bufs_out(s.update(i, x), d.union(set_int_range(s[i].offset as int, x.offset as int))),
+{
+    let t = s.update(i, x);
+    let d2 = d.union(set_int_range(s[i].offset as int, x.offset as int));
+    assert forall|a: int, b: int| 0 <= a < t.len() && 0 <= b < t.len() && a != b implies (#[trigger] t[a]).end() <= (#[trigger] t[b]).offset || t[b].end() <= t[a].offset by {
+        assert(s[a].end() <= s[b].offset || s[b].end() <= s[a].offset);
+        if a != i { assert(t[a] == s[a]); }
+        if b != i { assert(t[b] == s[b]); }
+    }
+    assert forall|a: int, k: int| 0 <= a < t.len() && (#[trigger] t[a]).offset <= k < t[a].end() implies #[trigger] r.contains(k) by {
+        if a != i { assert(t[a] == s[a]); } else { assert(s[i].offset <= k < s[i].end()); }
+    }
+    assert forall|a: int, k: int| 0 <= a < t.len() && (#[trigger] t[a]).offset <= k < t[a].end() implies !(#[trigger] d2.contains(k)) by {
+        if a != i { assert(t[a] == s[a]); assert(s[a].end() <= s[i].offset || s[i].end() <= s[a].offset); assert(!d.contains(k)); }
+        else { assert(s[i].offset <= k < s[i].end()); assert(!d.contains(k)); }
     }
 }
 pub open spec fn seq_covers(s: Seq<Buffer>, k: int) -> bool { exists|i: int| 0 <= i < s.len() && (#[trigger] s[i]).offset <= k < s[i].end() }
@@ -514,9 +598,18 @@ pub proof fn lemma_p1_final(fin: Seq<Buffer>, b0: Seq<Buffer>, start: u64, offse
         forall|j: int| 0 <= j < hv.len() ==> b0.contains(#[trigger] hv[j]),
     ensures fin_static(fin, start, end, hv), sum_len(fin) <= sum_len(b0),
         forall|k: int| k >= start && seq_covers(hv, k) ==> seq_covers(fin, k),
+        forall|k: int| seq_covers(fin, k) ==> seq_covers(hv, k),
 {
     reveal(p1); reveal(fin_static);
     let n = b0.len() as int;
+    assert forall|k: int| seq_covers(fin, k) implies seq_covers(hv, k) by {
+        let i = choose|i: int| 0 <= i < fin.len() && (#[trigger] fin[i]).offset <= k < fin[i].end();
+        let o = b0[n - 1 - i];
+        assert(fin_elem(fin[i], o, start, offset));
+        assert(hv.contains(o));
+        let j = choose|j: int| 0 <= j < hv.len() && hv[j] == o;
+        assert(hv[j].offset <= k < hv[j].end());
+    }
     assert(b0.skip(0) =~= b0);
     assert forall|i: int| 0 <= i < n implies (#[trigger] fin[i]).offset >= start && fin[i].end() <= end && fin[i].bytes@.len() <= fin[i].allocation_size
             && (fin[i].defragmented ==> fin[i].allocation_size == fin[i].bytes@.len()) && (!fin[i].defragmented ==> 0 < fin[i].bytes@.len() <= 0xffff_ffff) by {
@@ -555,6 +648,8 @@ pub open spec fn p2(h: Seq<Buffer>, buf: Seq<u8>, off: int, fin: Seq<Buffer>, id
     &&& forall|s: Seq<u8>| #[trigger] cons(hv, s) && buf.len() > 0 ==> off + buf.len() <= s.len() && buf =~= s.subrange(off, off + buf.len())
     &&& sum_len(h) + buf.len() == sum_len(fin.take(idx))
     &&& forall|k: int| seq_covers(fin.take(idx), k) ==> seq_covers(h, k) || off <= k < off + buf.len()
+    // and nothing else
+    &&& forall|k: int| seq_covers(h, k) || off <= k < off + buf.len() ==> #[trigger] seq_covers(fin.take(idx), k)
 }
 /// the merge buffer has been pushed as one defragmented buffer
 pub open spec fn flushed(h0: Seq<Buffer>, hn: Seq<Buffer>, off0: int, buf0: Seq<u8>) -> bool {
@@ -626,6 +721,11 @@ pub proof fn lemma_p2_pushchunk(h: Seq<Buffer>, buf: Seq<u8>, off: int, fin: Seq
     assert forall|k: int| seq_covers(fin.take(idx + 1), k) implies seq_covers(t, k) || off <= k < off + buf.len() by {
         lemma_covers_take(fin, idx, k);
     }
+    assert forall|k: int| seq_covers(t, k) || off <= k < off + buf.len() implies #[trigger] seq_covers(fin.take(idx + 1), k) by {
+        if seq_covers(t, k) { lemma_covers_push_rev(h, c, k); }
+        if seq_covers(h, k) || off <= k < off + buf.len() { assert(seq_covers(fin.take(idx), k)); }
+        lemma_covers_take_mono(fin, idx, k);
+    }
 }
 pub proof fn lemma_p2_skip(h: Seq<Buffer>, buf: Seq<u8>, off: int, fin: Seq<Buffer>, idx: int, start: u64, end: u64, hv: Seq<Buffer>)
     requires p2(h, buf, off, fin, idx, start, end, hv), 0 <= idx < fin.len(), fin[idx].bytes@.len() == 0,
@@ -635,6 +735,10 @@ pub proof fn lemma_p2_skip(h: Seq<Buffer>, buf: Seq<u8>, off: int, fin: Seq<Buff
     lemma_sum_take(fin, idx);
     assert forall|k: int| seq_covers(fin.take(idx + 1), k) implies seq_covers(h, k) || off <= k < off + buf.len() by {
         lemma_covers_take(fin, idx, k);
+    }
+    assert forall|k: int| seq_covers(h, k) || off <= k < off + buf.len() implies #[trigger] seq_covers(fin.take(idx + 1), k) by {
+        assert(seq_covers(fin.take(idx), k));
+        lemma_covers_take_mono(fin, idx, k);
     }
 }
 pub proof fn lemma_p2_flush(h: Seq<Buffer>, buf: Seq<u8>, off: int, hn: Seq<Buffer>, fin: Seq<Buffer>, idx: int, start: u64, end: u64, hv: Seq<Buffer>, offn: int)
@@ -653,6 +757,10 @@ pub proof fn lemma_p2_flush(h: Seq<Buffer>, buf: Seq<u8>, off: int, hn: Seq<Buff
         if j < h.len() { assert(hn[j] == h[j]); }
     }
     assert forall|k: int| seq_covers(fin.take(idx), k) implies seq_covers(hn, k) by { }
+    assert forall|k: int| seq_covers(hn, k) implies #[trigger] seq_covers(fin.take(idx), k) by {
+        lemma_covers_push_rev(h, m, k);
+        if seq_covers(h, k) || off <= k < off + buf.len() { assert(seq_covers(fin.take(idx), k)); }
+    }
 }
 pub proof fn lemma_p2_restart(h: Seq<Buffer>, off: int, fin: Seq<Buffer>, idx: int, start: u64, end: u64, hv: Seq<Buffer>)
     requires p2(h, Seq::<u8>::empty(), off, fin, idx, start, end, hv), fin_static(fin, start, end, hv), 0 <= idx < fin.len(), !fin[idx].defragmented,
@@ -669,6 +777,10 @@ pub proof fn lemma_p2_restart(h: Seq<Buffer>, off: int, fin: Seq<Buffer>, idx: i
     }
     assert forall|k: int| seq_covers(fin.take(idx + 1), k) implies seq_covers(h, k) || c.offset <= k < c.offset + c.bytes@.len() by {
         lemma_covers_take(fin, idx, k);
+    }
+    assert forall|k: int| seq_covers(h, k) || c.offset <= k < c.offset + c.bytes@.len() implies #[trigger] seq_covers(fin.take(idx + 1), k) by {
+        if seq_covers(h, k) { assert(seq_covers(fin.take(idx), k)); }
+        lemma_covers_take_mono(fin, idx, k);
     }
 }
 pub proof fn lemma_p2_extend(h: Seq<Buffer>, buf: Seq<u8>, off: int, fin: Seq<Buffer>, idx: int, start: u64, end: u64, hv: Seq<Buffer>)
@@ -693,6 +805,10 @@ pub proof fn lemma_p2_extend(h: Seq<Buffer>, buf: Seq<u8>, off: int, fin: Seq<Bu
     }
     assert forall|k: int| seq_covers(fin.take(idx + 1), k) implies seq_covers(h, k) || off <= k < off + b2.len() by {
         lemma_covers_take(fin, idx, k);
+    }
+    assert forall|k: int| seq_covers(h, k) || off <= k < off + b2.len() implies #[trigger] seq_covers(fin.take(idx + 1), k) by {
+        if seq_covers(h, k) || off <= k < off + buf.len() { assert(seq_covers(fin.take(idx), k)); }
+        lemma_covers_take_mono(fin, idx, k);
     }
 }
 pub proof fn lemma_p2_step(h0: Seq<Buffer>, buf0: Seq<u8>, off0: int, hn: Seq<Buffer>, bufn: Seq<u8>, offn: int, fin: Seq<Buffer>, idx: int, start: u64, end: u64, hv: Seq<Buffer>)
@@ -732,6 +848,7 @@ pub open spec fn post2(h: Seq<Buffer>, fin: Seq<Buffer>, start: u64, end: u64, h
     &&& forall|s: Seq<u8>, j: int| #![trigger h[j].matches(s)] cons(hv, s) && 0 <= j < h.len() ==> h[j].matches(s)
     &&& sum_len(h) == sum_len(fin)
     &&& forall|k: int| seq_covers(fin, k) ==> seq_covers(h, k)
+    &&& forall|k: int| seq_covers(h, k) ==> seq_covers(fin, k)
 }
 pub proof fn lemma_p2_finish(h0: Seq<Buffer>, buf0: Seq<u8>, off0: int, hn: Seq<Buffer>, fin: Seq<Buffer>, start: u64, end: u64, hv: Seq<Buffer>)
     requires p2(h0, buf0, off0, fin, fin.len() as int, start, end, hv),
@@ -747,6 +864,84 @@ pub proof fn lemma_p2_finish(h0: Seq<Buffer>, buf0: Seq<u8>, off0: int, hn: Seq<
     }
 }
 
+// ---- Assembler::insert in unordered mode: only offsets that were not received before are buffered ---------------------------
+pub open spec fn fresh(x: Buffer, r0: Set<int>) -> bool { forall|k: int| x.offset <= k < x.end() ==> !(#[trigger] r0.contains(k)) }
+/// `h` = the old buffers `base` followed by fresh pieces lying in [off0, lim), all pairwise disjoint
+#[verifier::opaque]
+pub open spec fn uq(h: Seq<Buffer>, base: Seq<Buffer>, r0: Set<int>, off0: int, lim: int) -> bool {
+    &&& h.len() >= base.len() && forall|j: int| 0 <= j < base.len() ==> #[trigger] h[j] == base[j]
+    &&& forall|j: int| base.len() <= j < h.len() ==> fresh(#[trigger] h[j], r0) && off0 <= h[j].offset && h[j].end() <= lim
+    &&& pairwise_disjoint(h)
+}
+pub proof fn lemma_uq_init(base: Seq<Buffer>, r0: Set<int>, off0: int)
+    requires pairwise_disjoint(base)
+    ensures uq(base, base, r0, off0, off0)
+{ reveal(uq); }
+pub proof fn lemma_uq_grow(h: Seq<Buffer>, base: Seq<Buffer>, r0: Set<int>, off0: int, lim: int, lim2: int)
+    requires uq(h, base, r0, off0, lim), lim <= lim2
+    ensures uq(h, base, r0, off0, lim2)
+{ reveal(uq); }
+pub proof fn lemma_uq_push(h: Seq<Buffer>, base: Seq<Buffer>, r0: Set<int>, off0: int, lim: int, x: Buffer, lim2: int)
+    requires uq(h, base, r0, off0, lim), bufs_in(base, r0), fresh(x, r0), x.bytes@.len() > 0, off0 <= lim <= x.offset, x.end() <= lim2,
+        forall|j: int| 0 <= j < base.len() ==> (#[trigger] base[j]).bytes@.len() > 0,
+    ensures uq(h.push(x), base, r0, off0, lim2)
+{
+    reveal(uq);
+    let t = h.push(x);
+    assert forall|j: int| 0 <= j < h.len() implies (#[trigger] h[j]).end() <= x.offset || x.end() <= h[j].offset by {
+        if j < base.len() {
+            assert(h[j] == base[j]);
+            // an old buffer holds only received offsets, x only fresh ones: they cannot share x's first offset or the buffer's
+            if !(h[j].end() <= x.offset || x.end() <= h[j].offset) {
+                let k = if h[j].offset >= x.offset { h[j].offset as int } else { x.offset as int };
+                assert(base[j].offset <= k < base[j].end());
+                assert(r0.contains(k));
+                assert(x.offset <= k < x.end());
+            }
+        } else {
+            assert(fresh(h[j], r0) && h[j].end() <= lim);
+        }
+    }
+    lemma_disjoint_push(h, x);
+    assert forall|j: int| 0 <= j < base.len() implies #[trigger] t[j] == base[j] by { assert(t[j] == h[j]); }
+    assert forall|j: int| base.len() <= j < t.len() implies fresh(#[trigger] t[j], r0) && off0 <= t[j].offset && t[j].end() <= lim2 by {
+        if j < h.len() { assert(t[j] == h[j]); assert(fresh(h[j], r0) && off0 <= h[j].offset && h[j].end() <= lim); }
+    }
+}
+pub proof fn lemma_uq_final(h: Seq<Buffer>, base: Seq<Buffer>, r0: Set<int>, off0: int, end0: int, rf: Set<int>)
+    requires uq(h, base, r0, off0, end0), bufs_in(base, r0), rf =~= r0.union(set_int_range(off0, end0))
+    ensures pairwise_disjoint(h), bufs_in(h, rf),
+        forall|d: Set<int>| d.subset_of(r0) && #[trigger] bufs_out(base, d) ==> bufs_out(h, d) && d.subset_of(rf),
+{
+    reveal(uq);
+    assert forall|i: int, k: int| 0 <= i < h.len() && (#[trigger] h[i]).offset <= k < h[i].end() implies #[trigger] rf.contains(k) by {
+        if i < base.len() { assert(h[i] == base[i]); assert(r0.contains(k)); }
+        else { assert(off0 <= h[i].offset && h[i].end() <= end0); }
+    }
+    assert forall|d: Set<int>| d.subset_of(r0) && #[trigger] bufs_out(base, d) implies bufs_out(h, d) && d.subset_of(rf) by {
+        assert forall|i: int, k: int| 0 <= i < h.len() && (#[trigger] h[i]).offset <= k < h[i].end() implies !(#[trigger] d.contains(k)) by {
+            if i < base.len() { assert(h[i] == base[i]); }
+            else { assert(fresh(h[i], r0)); assert(!r0.contains(k)); }
+        }
+    }
+}
+pub proof fn lemma_gap_fresh(seq: Seq<Range<u64>>, off0: u64, end0: u64, idx: int, k: int)
+    requires valid_dups(seq, off0, end0), 0 <= idx <= seq.len(), idx < seq.len() ==> k < seq[idx].start
+    ensures !in_dups_from(seq, idx, k)
+{
+    if in_dups_from(seq, idx, k) {
+        let i = choose|i: int| idx <= i < seq.len() && (#[trigger] seq[i]).start <= k < seq[i].end;
+        if i > idx { assert(seq[idx].end <= seq[i].start); }
+    }
+}
+pub proof fn lemma_from_step(seq: Seq<Range<u64>>, off0: u64, end0: u64, idx: int, k: int)
+    requires valid_dups(seq, off0, end0), 0 <= idx < seq.len(), k >= seq[idx].end, in_dups_from(seq, idx, k)
+    ensures in_dups_from(seq, idx + 1, k)
+{
+    let i = choose|i: int| idx <= i < seq.len() && (#[trigger] seq[i]).start <= k < seq[i].end;
+    assert(i != idx);
+}
+
 impl Assembler {
     pub open spec fn bufs(&self) -> Seq<Buffer> { heap_view(self.data) }
     /// representation invariant: byte accounting is exact, no empty buffer is kept, nothing lies beyond `end`
@@ -760,6 +955,14 @@ impl Assembler {
             // unordered: what has been delivered plus what is buffered never exceeds the number of distinct offsets received
             State::Unordered { recvd } => self.bytes_read + sum_len(self.bufs()) <= recvd.total() && recvd.total() <= recvd.bound() && recvd.bound() <= self.end,
         }
+    }
+    /// unordered mode: buffers are pairwise disjoint and hold only offsets that are counted as received
+    pub open spec fn uwf(&self) -> bool {
+        match self.state { State::Ordered => true, State::Unordered { recvd } => pairwise_disjoint(self.bufs()) && bufs_in(self.bufs(), recvd@) }
+    }
+    /// `d` = offsets the application has been given already: all counted as received, none still buffered
+    pub open spec fn udinv(&self, d: Set<int>) -> bool {
+        match self.state { State::Ordered => true, State::Unordered { recvd } => d.subset_of(recvd@) && bufs_out(self.bufs(), d) }
     }
     /// every buffered chunk holds the sender's bytes at its offset
     pub open spec fn consistent(&self, s: Seq<u8>) -> bool { cons(self.bufs(), s) }
@@ -783,6 +986,10 @@ impl Assembler {
             pairwise_disjoint(final(self).bufs()),
             // ordered mode: nothing that was already consumed stays buffered
             final(self).state is Ordered ==> forall|i: int| 0 <= i < final(self).bufs().len() ==> (#[trigger] final(self).bufs()[i]).offset >= final(self).bytes_read,
+            // nothing is buffered afterwards that was not buffered before
+            forall|k: int| final(self).covers(k) ==> old(self).covers(k),
+            old(self).uwf() ==> final(self).uwf(),
+            forall|d: Set<int>| #[trigger] old(self).udinv(d) ==> final(self).udinv(d),
 //@ at-start
         let ghost hv = self.bufs();
         let ghost me0 = *self;   // (a local named `old` shadows old(..) below)
@@ -878,7 +1085,24 @@ impl Assembler {
             lemma_sum_len_is_seq_sum(b0);
             lemma_sum_len_is_seq_sum(hv);
             assert(sum_len(hn) <= sum_len(hv));
-            if self.state is Unordered { axiom_total_le_bound(self.state->recvd); }
+            if self.state is Unordered {
+                axiom_total_le_bound(self.state->recvd);
+                let rset = self.state->recvd@;
+                if me0.uwf() {
+                    assert forall|i: int, k: int| 0 <= i < hn.len() && (#[trigger] hn[i]).offset <= k < hn[i].end() implies #[trigger] rset.contains(k) by {
+                        assert(seq_covers(hn, k));
+                        assert(seq_covers(hv, k));
+                        let j = choose|j: int| 0 <= j < hv.len() && (#[trigger] hv[j]).offset <= k < hv[j].end();
+                    }
+                }
+                assert forall|d: Set<int>| #[trigger] me0.udinv(d) implies self.udinv(d) by {
+                    assert forall|i: int, k: int| 0 <= i < hn.len() && (#[trigger] hn[i]).offset <= k < hn[i].end() implies !(#[trigger] d.contains(k)) by {
+                        assert(seq_covers(hn, k));
+                        assert(seq_covers(hv, k));
+                        let j = choose|j: int| 0 <= j < hv.len() && (#[trigger] hv[j]).offset <= k < hv[j].end();
+                    }
+                }
+            }
         }
 //@ end
 //@ extract quinn-proto/src/connection/assembler.rs :: impl Assembler::fn ensure_ordering
@@ -898,6 +1122,8 @@ impl Assembler {
                 &&& forall|k: int| old(self).covers(k) && (old(self).state is Ordered ==> k >= old(self).bytes_read) ==> final(self).covers(k)
                 // entering unordered mode: what counts as received is exactly what was consumed plus what is buffered
                 &&& (old(self).state is Ordered && !ordered ==> final(self).state->recvd@ =~= set_int_range(0, old(self).bytes_read as int).union(bufs_set(final(self).bufs(), final(self).bufs().len() as int)))
+                // ... the buffers are disjoint, and none of them holds an offset the ordered reads already delivered
+                &&& (old(self).state is Ordered && !ordered ==> final(self).uwf() && final(self).udinv(set_int_range(0, old(self).bytes_read as int)))
             },
         }
 //@ before let mut recvd = RangeSet::new();
@@ -912,6 +1138,9 @@ impl Assembler {
             proof {
                 assert(bs.take(bs.len() as int) =~= bs);
                 axiom_total_le_bound(recvd);
+                assert forall|i: int, k: int| 0 <= i < bs.len() && (#[trigger] bs[i]).offset <= k < bs[i].end() implies #[trigger] recvd@.contains(k) by {
+                    lemma_bufs_set_has(bs, bs.len() as int, i, k);
+                }
             }
 //@ loop-iter 0 it
 //@ loop 0
@@ -951,12 +1180,19 @@ impl Assembler {
                 ==> final(self).consistent(s),
             // no loss (ordered mode): every not yet consumed offset that was buffered or has just arrived is buffered afterwards
             old(self).state is Ordered ==> forall|k: int| old(self).bytes_read <= k && (old(self).covers(k) || offset <= k < offset + bytes@.len()) ==> final(self).covers(k),
+            // unordered mode: only offsets never received before are buffered, so nothing already delivered can be delivered again
+            old(self).uwf() ==> final(self).uwf(),
+            forall|d: Set<int>| old(self).uwf() && #[trigger] old(self).udinv(d) ==> final(self).udinv(d),
 //@ at-start
         let ghost off0 = offset;
         let ghost b0 = bytes@;
         let ghost end0 = (offset + bytes@.len()) as u64;
         let ghost base = self.bufs();
+        let ghost uwf0 = self.uwf() && self.state is Unordered;
+        let ghost r0 = if self.state is Unordered { self.state->recvd@ } else { Set::<int>::empty() };
         proof {
+            if uwf0 { lemma_uq_init(base, r0, off0 as int); }
+            assert forall|j: int| 0 <= j < base.len() implies (#[trigger] base[j]).bytes@.len() > 0 by { assert(buf_ok(base[j], self.end)); }
             lemma_sum_alloc_ge(base, self.end);
             assert((b0.len() + 1) * allocation_size == b0.len() * allocation_size + allocation_size) by(nonlinear_arith);
             assert(b0.len() * allocation_size >= 0) by(nonlinear_arith);
@@ -977,6 +1213,10 @@ impl Assembler {
                     b0.len() <= allocation_size, b0.len() <= 0xffff_ffff, old(self).allocated + (b0.len() + 1) * allocation_size <= usize::MAX,
                     forall|s: Seq<u8>| old(self).consistent(s) && end0 <= s.len() && b0 =~= s.subrange(off0 as int, end0 as int)
                         ==> (forall|j: int| 0 <= j < heap_view(self.data).len() ==> (#[trigger] heap_view(self.data)[j]).matches(s)),
+                    // whatever of the not yet visited part of the range was received before lies in a later duplicate
+                    forall|k: int| #![trigger r0.contains(k)] offset <= k < end0 && r0.contains(k) ==> in_dups_from(it.seq(), it.index@, k),
+                    uwf0 ==> bufs_in(base, r0) && uq(heap_view(self.data), base, r0, off0 as int, offset as int),
+                    forall|j: int| 0 <= j < base.len() ==> (#[trigger] base[j]).bytes@.len() > 0,
 //@ loop-start 0
                 let ghost h0 = heap_view(self.data);
                 let ghost offset_in = offset;
@@ -989,13 +1229,25 @@ impl Assembler {
                     assert((it.index@ + 1) * allocation_size == it.index@ * allocation_size + allocation_size) by(nonlinear_arith);
                     assert(dup_total(it.seq(), it.index@ + 1) == dup_total(it.seq(), it.index@) + (duplicate.end - duplicate.start));
                 }
+//@ loop-end 0
+                proof {
+                    assert forall|k: int| #![trigger r0.contains(k)] offset <= k < end0 && r0.contains(k) implies in_dups_from(it.seq(), it.index@ + 1, k) by {
+                        lemma_from_step(it.seq(), off0, end0, it.index@, k);
+                    }
+                    if uwf0 { lemma_uq_grow(heap_view(self.data), base, r0, off0 as int, (if duplicate.start > offset_in { duplicate.start as int } else { offset_in as int }), offset as int); }
+                }
 //@ after for duplicate in
             proof {
                 assert(self.state is Unordered);
                 assert(self.recvd_total() == old(self).recvd_total() + b0.len() - (sum_len(base) + (offset - off0) - sum_len(self.bufs())));
             }
 //@ before if bytes.is_empty()
-        proof { if self.state is Unordered { axiom_total_le_bound(self.state->recvd); } }
+        proof {
+            if self.state is Unordered { axiom_total_le_bound(self.state->recvd); }
+            if uwf0 && bytes@.len() == 0 {
+                lemma_uq_final(self.bufs(), base, r0, off0 as int, end0 as int, self.state->recvd@);
+            }
+        }
 //@ before let buffer = Buffer::new(offset, bytes, allocation_size);
         let ghost h1 = self.bufs();
         let ghost offset1 = offset;
@@ -1019,6 +1271,12 @@ impl Assembler {
             lemma_sum_alloc_ge(self.bufs(), self.end);
             if self.state is Unordered { axiom_total_le_bound(self.state->recvd); }
             assert(self.wf());
+            if uwf0 {
+                assert(fresh(buffer, r0));
+                lemma_uq_push(h1, base, r0, off0 as int, offset1 as int, buffer, end0 as int);
+                lemma_uq_final(self.bufs(), base, r0, off0 as int, end0 as int, self.state->recvd@);
+                assert forall|d: Set<int>| #[trigger] old(self).udinv(d) implies self.udinv(d) by { assert(bufs_out(base, d)); }
+            }
         }
 //@ after self.data.push(buffer); #1
                     proof {
@@ -1028,6 +1286,12 @@ impl Assembler {
                             implies (forall|j: int| 0 <= j < heap_view(self.data).len() ==> (#[trigger] heap_view(self.data)[j]).matches(s)) by {
                             assert(buffer.bytes@ =~= s.subrange(offset_in as int, duplicate.start as int));
                             lemma_all_push(h0, buffer, |b: Buffer| b.matches(s));
+                        }
+                        if uwf0 {
+                            assert forall|k: int| buffer.offset <= k < buffer.end() implies !(#[trigger] r0.contains(k)) by {
+                                lemma_gap_fresh(it.seq(), off0, end0, it.index@, k);
+                            }
+                            lemma_uq_push(h0, base, r0, off0 as int, offset_in as int, buffer, duplicate.start as int);
                         }
                     }
 //@ end
@@ -1048,17 +1312,25 @@ impl Assembler {
 //@ extract quinn-proto/src/connection/assembler.rs :: impl Assembler::fn clear
 //@ contract
         requires old(self).wf()
-        ensures final(self).wf(), final(self).bufs().len() == 0, final(self).state == old(self).state, final(self).bytes_read == old(self).bytes_read, final(self).end == old(self).end
+        ensures final(self).wf(), final(self).bufs().len() == 0, final(self).state == old(self).state, final(self).bytes_read == old(self).bytes_read, final(self).end == old(self).end,
+            final(self).uwf(), forall|d: Set<int>| #[trigger] old(self).udinv(d) ==> final(self).udinv(d),
 //@ end
 //@ extract quinn-proto/src/connection/assembler.rs :: impl Assembler::fn read
 //@ ret r
-//@ attr #[verifier::rlimit(60)]
+//@ attr #[verifier::rlimit(200)]
 //@ contract
         requires old(self).wf(), ordered == (old(self).state is Ordered)
         ensures final(self).wf(), final(self).state == old(self).state, final(self).end == old(self).end,
             forall|s: Seq<u8>| old(self).consistent(s) ==> final(self).consistent(s),
             old(self).bufs().len() == 0 ==> r.is_none() && final(self).bufs().len() == 0,
             final(self).bytes_read <= final(self).end,
+            old(self).uwf() ==> final(self).uwf(),
+            // exactly once, unordered mode: a chunk never contains an offset the application was given before
+            forall|d: Set<int>| !ordered && old(self).uwf() && #[trigger] old(self).udinv(d) ==> (match r {
+                Some(c) => (forall|k: int| c.offset <= k < c.offset + c.bytes@.len() ==> !d.contains(k))
+                    && final(self).udinv(d.union(set_int_range(c.offset as int, c.offset + c.bytes@.len()))),
+                None => final(self).udinv(d),
+            }),
             match r {
                 Some(c) => {
                     &&& final(self).bytes_read == old(self).bytes_read + c.bytes@.len()
@@ -1105,6 +1377,14 @@ impl Assembler {
                     }
 //@ before Chunk::new(offset
                 proof {
+                    if !ordered && old(self).uwf() {
+                        let rset = self.state->recvd@;
+                        assert forall|x: Buffer, d: Set<int>| within(x, base[idx]) && bufs_out(base, d) implies
+                            pairwise_disjoint(#[trigger] base.update(idx, x)) && bufs_in(base.update(idx, x), rset)
+                            && bufs_out(base.update(idx, x), #[trigger] d.union(set_int_range(base[idx].offset as int, x.offset as int))) by {
+                            lemma_unordered_update(base, idx, x, rset, d);
+                        }
+                    }
                     // whatever value x the peeked element ends up with, the accounting of base.update(idx, x) is known
                     assert forall|x: Buffer| sum_len(#[trigger] base.update(idx, x)) + base[idx].bytes@.len() == sum_len(base) + x.bytes@.len()
                         && sum_alloc(base.update(idx, x)) + base[idx].allocation_size == sum_alloc(base) + x.allocation_size by { lemma_sum_update(base, idx, x); }
@@ -1117,6 +1397,13 @@ impl Assembler {
                 }
 //@ after let chunk = PeekMut::pop(chunk);
                 proof {
+                    if !ordered && old(self).uwf() {
+                        let rset = self.state->recvd@;
+                        assert forall|d: Set<int>| bufs_out(base, d) implies pairwise_disjoint(base.remove(idx)) && bufs_in(base.remove(idx), rset)
+                            && bufs_out(base.remove(idx), #[trigger] d.union(set_int_range(base[idx].offset as int, base[idx].end()))) by {
+                            lemma_unordered_remove(base, idx, rset, d);
+                        }
+                    }
                     lemma_sum_remove(base, idx);
                     lemma_all_remove(base, idx, |b: Buffer| buf_ok(b, self.end));
                     assert forall|s: Seq<u8>| old(self).consistent(s) implies self.consistent(s) by {
